@@ -119,6 +119,11 @@ func (pb *patternBuilder) getPatternItem() error {
 		}
 		switch {
 		case c == 'f':
+			// A frontier pattern is %f[set]: anything else than a set after
+			// %f is malformed.
+			if pb.i >= len(pb.ptn) || pb.ptn[pb.i] != '[' {
+				return errMissingSetAfterFrontier
+			}
 			s, err := pb.getCharClass()
 			if err == nil {
 				pb.emit(patternItem{s, ptnFrontier})
